@@ -394,7 +394,8 @@ class RestAPI(object):
                 character limit described in the CreateStateMachine API page.
                 https://docs.aws.amazon.com/step-functions/latest/apireference/API_CreateStateMachine.html
                 """
-                if len(definition) == 0 or len(definition) > MAX_STATE_MACHINE_LENGTH:
+                if (not isinstance(definition, str) or len(definition) == 0
+                    or len(definition) > MAX_STATE_MACHINE_LENGTH):
                     self.logger.error(
                         "RestAPI CreateStateMachine: Invalid definition size for State Machine '{}'.".format(name)
                     )
@@ -676,9 +677,10 @@ class RestAPI(object):
                     character limit described in the UpdateStateMachine API page.
                     https://docs.aws.amazon.com/step-functions/latest/apireference/API_UpdateStateMachine.html
                     """
-                    if len(definition) == 0 or len(definition) > MAX_STATE_MACHINE_LENGTH:
+                    if (not isinstance(definition, str) or len(definition) == 0
+                        or len(definition) > MAX_STATE_MACHINE_LENGTH):
                         self.logger.error(
-                            "RestAPI UpdateStateMachine: Invalid definition size for State Machine '{}'.".format(name)
+                            "RestAPI UpdateStateMachine: Invalid definition size for State Machine '{}'.".format(state_machine_arn)
                         )
                         return aws_error("InvalidDefinition"), 400
 
@@ -738,7 +740,7 @@ class RestAPI(object):
 
                     if logging_level not in {"OFF", "ALL", "ERROR", "FATAL"}:
                         self.logger.error(
-                            "RestAPI CreateStateMachine: Invalid logging configuration for State Machine '{}'.".format(name)
+                            "RestAPI UpdateStateMachine: Invalid logging configuration for State Machine '{}'.".format(state_machine_arn)
                         )
                         return aws_error("InvalidLoggingConfiguration"), 400
 
@@ -756,7 +758,7 @@ class RestAPI(object):
                                 isinstance(destinations , list) and
                                 len(destinations) == 1):
                             self.logger.error(
-                                "RestAPI CreateStateMachine: Invalid logging configuration for State Machine '{}'.".format(name)
+                                "RestAPI UpdateStateMachine: Invalid logging configuration for State Machine '{}'.".format(state_machine_arn)
                             )
                             return aws_error("InvalidLoggingConfiguration"), 400
 
@@ -844,7 +846,7 @@ class RestAPI(object):
                 quota described in Stepfunction Quotas page.
                 https://docs.aws.amazon.com/step-functions/latest/dg/limits.html
                 """
-                if len(input) > MAX_DATA_LENGTH:
+                if not isinstance(input, str) or len(input) > MAX_DATA_LENGTH:
                     self.logger.error(
                         "RestAPI StartExecution: input size for execution '{}' exceeds "
                         "the maximum number of characters service limit.".format(name)
@@ -979,7 +981,8 @@ class RestAPI(object):
                 quota described in Stepfunction Quotas page.
                 https://docs.aws.amazon.com/step-functions/latest/dg/limits.html
                 """
-                if len(input_as_string) > MAX_DATA_LENGTH:
+                if (not isinstance(input_as_string, str)
+                    or len(input_as_string) > MAX_DATA_LENGTH):
                     self.logger.error(
                         "RestAPI StartSyncExecution: input size for execution "
                         "'{}' exceeds the maximum number of characters "
@@ -1327,7 +1330,7 @@ class RestAPI(object):
                 quota described in Stepfunction Quotas page.
                 https://docs.aws.amazon.com/step-functions/latest/dg/limits.html
                 """
-                if len(output) > MAX_DATA_LENGTH:
+                if not isinstance(output, str) or len(output) > MAX_DATA_LENGTH:
                     self.logger.error(
                         "RestAPI SendTaskSuccess: InvalidOutput: size exceeds "
                         "the maximum number of characters service limit."
